@@ -8,7 +8,10 @@ from .. import aoef, aoefgen, aoef_impl
 PROPERTY = "C02"
 LEAN_MODULE = "Proofs.C02"
 _T = "SE.Proofs.C02."
-_THEOREM_NAMES = []
+_THEOREM_NAMES = ["C02_trav_iff_reachable", "C02_exact", "C02_exact_reachable", "C02_parent_first", "C02_tag_ids_dense",
+                  "C02_tag_ids_by_content", "C02_unique", "C02_closed_any", "C02_closed",
+                  "C02_user_adapter_values", "C02_tag_adapter_values", "C02_tag_adapter_id",
+                  "C02_adapter_load_is_addAll", "C02_tag_ids_dense_operational"]
 THEOREMS = [_T + n for n in _THEOREM_NAMES]
 LEVEL_TEXT = ("Lean theorems over the AOEF model (shared with C01): the document `save c` writes is closed under "
               "reference, its identifiers are unique per list, a sequence's parent precedes it, tag ids are dense and "
